@@ -1,5 +1,5 @@
 // Kani harnesses for harper-ls/src/pos_conv.rs (attached to that module). BOUNDED: every text of
-// length 0..=N over the alphabet {LF, CR, 'a', TAB, U+1F600 (2 UTF-16 units), U+0301 (combining)},
+// length 0..=N over the alphabet {LF, CR, 'a', U+4E2D (3 UTF-8 bytes, 1 UTF-16 unit), U+1F600 (4 bytes, 2 units), U+0301 (combining, 2 bytes)},
 // every index / span. N is the const generic of each harness body.
 
 fn any_char() -> char {
@@ -9,7 +9,7 @@ fn any_char() -> char {
         0 => '\n',
         1 => '\r',
         2 => 'a',
-        3 => '\t',
+        3 => '\u{4E2D}',
         4 => '\u{1F600}',
         _ => '\u{0301}',
     }
